@@ -92,6 +92,7 @@ func VerifC10_step() {
 		output:            make(chan []int, 1),
 		release:           make(chan struct{}),
 	}
+	vKnownFields(d, "opts interruptInterval join output passAt release")
 	d.resetPassAt()
 	P := vNow() // passAt
 	accept := make([]int64, 0, JS)
